@@ -98,6 +98,8 @@ def dino_sequence(cfg, rng, seq):
 def ijepa_configs(tier):
     # (rows, cols): square, portrait and landscape patch grids
     grids = [(4, 4), (6, 6), (8, 4), (4, 8)] if tier == "quick" else [(4, 4), (5, 5), (6, 6), (8, 8), (8, 4), (4, 8), (6, 4), (5, 7)]
+    # the last menu has an encoder block only slightly larger than a predictor block: an encoder mask (block minus the
+    # predictor blocks) can then be SHORTER than a predictor mask
     menus = [((0.85, 1.0), (0.15, 0.2), (0.75, 1.5)), ((0.6, 0.8), (0.1, 0.15), (1.0, 1.0)), ((0.9, 1.0), (0.05, 0.1), (0.5, 2.0))]
     out = []
     for g in grids:
@@ -107,6 +109,14 @@ def ijepa_configs(tier):
                     for mk in ((0, 2) if tier == "quick" else (0, 1, 2, 3)):
                         for B in (1, 2):
                             out.append(dict(g=g, enc=enc, pred=pred, ar=ar, n_enc=n_enc, n_pred=n_pred, min_keep=mk, B=B))
+    # an encoder block only slightly larger than the predictor block (larger grids so that the blocks do not saturate):
+    # the encoder mask (block minus predictor blocks) can then be SHORTER than a predictor mask - still inside the stated domain
+    for g in ((10, 10), (12, 9)):
+        for enc, pred in (((0.3, 0.3), (0.2, 0.2)), ((0.35, 0.4), (0.2, 0.25))):
+            for n_enc in (1, 2):
+                for mk in (0, 2):
+                    for B in (1, 2, 3):
+                        out.append(dict(g=g, enc=enc, pred=pred, ar=(1.0, 1.0), n_enc=n_enc, n_pred=1, min_keep=mk, B=B))
     return out
 
 
